@@ -96,12 +96,20 @@ def main():
     assert o.strip() == "", "/repo not clean after undo:\n" + o
     dst = os.path.join(ROOT, "seeded", sid)
     os.makedirs(dst, exist_ok=True)
+    if "--skip-confirm" in sys.argv and os.path.exists(os.path.join(dst, "meta.json")):
+        old = json.load(open(os.path.join(dst, "meta.json")))
+        result["confirmed"] = old.get("confirmed_by_us", {})
+        # keep the record of earlier check runs (e.g. a miss before the checks were strengthened)
+        hist = old.get("earlier_runs", [])
+        hist.append({"checks_run": old.get("checks_run"), "detected": old.get("detected")})
+        result["earlier_runs"] = hist
     shutil.copy(patch, os.path.join(dst, "patch.diff"))
     for d in demos:
         shutil.copy(d, os.path.join(dst, os.path.basename(d) + ".txt"))  # .txt: not part of any Go package here
     detected = any(v["exit"] == 1 and any(l.startswith("VIOLATION") for l in v["lines"]) for v in result["checks"].values())
     final = {"property": meta.get("property"), "summary": meta.get("summary"), "needs_to_manifest": meta.get("needs_to_manifest"),
-             "demo_cmd": meta.get("demo_cmd"), "confirmed_by_us": result["confirmed"], "checks_run": result["checks"], "detected": detected}
+             "demo_cmd": meta.get("demo_cmd"), "confirmed_by_us": result["confirmed"], "checks_run": result["checks"], "detected": detected,
+             "earlier_runs": result.get("earlier_runs", [])}
     json.dump(final, open(os.path.join(dst, "meta.json"), "w"), indent=1)
     print("stored", dst, "detected" if detected else "MISSED")
 
